@@ -840,7 +840,14 @@ pub fn handle_promise_all_fulfill(
         let results = mem::take(&mut *state.results.borrow_mut());
         let result_promise = state.result_promise.cheap_clone();
 
+        // The results have just left the traced combinator state: root them while the result
+        // array is allocated (the allocation may run a collection)
         let guard = interp.heap.create_guard();
+        for value in &results {
+            if let JsValue::Object(obj) = value {
+                guard.guard(obj.cheap_clone());
+            }
+        }
         let arr = interp.create_array_from(&guard, results);
         fulfill_promise(interp, &result_promise, JsValue::Object(arr))?;
     }
